@@ -226,13 +226,29 @@ class Body:
             out.append((t["target"], "n"))
             # imaginary / false unwind edges are not real control flow
         elif k == "switch":
-            seen = set()
-            for _, tb in t["targets"]:
-                if tb not in seen:
-                    seen.add(tb)
-                    out.append((tb, "n"))
-            if t["otherwise"] not in seen:
-                out.append((t["otherwise"], "n"))
+            cv = const_int(t["op"]) if "const" in t["op"] else None
+            if cv is None:
+                # `_t = const false; switchInt(move _t)`
+                pl = op_place(t["op"])
+                if pl is not None and not pl["p"]:
+                    dl = self.defs().get(pl["l"], [])
+                    if len(dl) == 1 and dl[0][0] == "assign" and dl[0][3]["rv"]["k"] == "use" and not dl[0][3]["lhs"]["p"]:
+                        cv = const_int(dl[0][3]["rv"]["op"]) if "const" in dl[0][3]["rv"]["op"] else None
+            if cv is not None:
+                # switch on a literal constant (`if false && ..`): only the matching edge is real
+                tgt = t["otherwise"]
+                for v, tb in t["targets"]:
+                    if v == cv:
+                        tgt = tb
+                out.append((tgt, "n"))
+            else:
+                seen = set()
+                for _, tb in t["targets"]:
+                    if tb not in seen:
+                        seen.add(tb)
+                        out.append((tb, "n"))
+                if t["otherwise"] not in seen:
+                    out.append((t["otherwise"], "n"))
         elif k in ("call", "drop", "assert", "yield"):
             if t.get("target") is not None:
                 out.append((t["target"], "n"))
@@ -468,6 +484,20 @@ class Body:
             if b is None:
                 return False
 
+    def direct_control_deps(self, b, kinds="n"):
+        """(switch_block, successor) pairs b is directly control dependent on"""
+        res = []
+        succ = self.succ(kinds)
+        for sb in range(self.nblocks):
+            if self.blocks[sb]["term"]["k"] != "switch" or len(succ[sb]) < 2:
+                continue
+            if self.postdominates(b, sb, kinds) and b != sb:
+                continue
+            for t in succ[sb]:
+                if self.postdominates(b, t, kinds):
+                    res.append((sb, t))
+        return res
+
     def control_deps(self, b, kinds="n", depth=6):
         """switch blocks (and the edge taken) that block b is transitively control dependent on:
         list of (switch_block, successor)"""
@@ -690,7 +720,7 @@ class Origin:
         return "Origin(%s %s bb%s proj=%s%s)" % (self.kind, self.what, self.block, "".join(self.proj), " NEG" if self.neg else "")
 
 
-def origins(body, start, extra_transparent=(), max_nodes=4000, through_fields=True, visited=None, taint=False):
+def origins(body, start, extra_transparent=(), max_nodes=4000, through_fields=True, visited=None, taint=False, taint_barrier=None):
     """Backward def-use closure of an operand / place / local inside one body.
 
     Returns a list of Origin.  Flow-insensitive over locals (MIR temporaries are
@@ -766,7 +796,7 @@ def origins(body, start, extra_transparent=(), max_nodes=4000, through_fields=Tr
                 if idxs is None:
                     o = Origin("call", call.name, d[1], proj, neg, call=call)
                     out[o.key()] = o
-                    if taint:
+                    if taint and not (taint_barrier and taint_barrier(call)):
                         # taint mode: the result may derive from any argument
                         for a in call.args:
                             push_op(a, (), neg)
@@ -862,6 +892,29 @@ def origins(body, start, extra_transparent=(), max_nodes=4000, through_fields=Tr
             o = Origin("place", l, None, proj, neg)
             out[o.key()] = o
     return list(out.values())
+
+
+def type_head(ty):
+    """outermost type constructor of a type string, refs stripped"""
+    t = ty.strip()
+    while t.startswith("&"):
+        t = t[1:].lstrip()
+        if t.startswith("'"):
+            t = t.split(" ", 1)[1] if " " in t else t
+        if t.startswith("mut "):
+            t = t[4:]
+    for i, ch in enumerate(t):
+        if ch in "<(":
+            return t[:i]
+    return t
+
+
+def domain_struct_barrier(call):
+    """taint barrier: calls that build a domain object (pgcat:: / bb8:: struct) do not pass taint on"""
+    if call.dest is None or call.dest["p"]:
+        return False
+    h = type_head(call.body.locals[call.dest["l"]]["ty"])
+    return h.startswith("pgcat::") or h.startswith("bb8::") or h.startswith("impl ") or h.startswith("{")
 
 
 def _surviving_proj(call, proj):
